@@ -128,6 +128,9 @@ def run(ctx):
     # a cleanup's roster filter against the roster write of a deployment (hand-scheduled: the point task.roster.filtered)
     sid[0] += 1
     scenarios.append(lc.recipe_lost_append(sid[0]))
+    # two creations needing the same detector, both held inside their detector re-check (hand-scheduled)
+    sid[0] += 1
+    scenarios.append(lc.recipe_recheck(sid[0]))
     rc = dict(common, ReuseUnlocked=True, DetChoices=[set(), {"TPC"}], MaxCalls=5)
     for h in lc.generate(ctx, rc, nreuse, pairs=True, max_pairs=1):
         add(h, "reuse", reuse=True)
